@@ -66,25 +66,40 @@ func (c *ProtocolSwitchServerConn) detect() error {
 
 // ProtectedConn 返回被保护的连接对象
 func (c *ProtocolSwitchServerConn) ProtectedConn() net.Conn {
+	return c.protected()
+}
+
+// protected 在 lock 保护下读取 wrapped：detect 在持锁时写入 wrapped，
+// Read/Write 可能被不同 goroutine 并发调用，因此读取也必须持锁。
+func (c *ProtocolSwitchServerConn) protected() net.Conn {
+	c.lock.Lock()
+	defer c.lock.Unlock()
 	return c.wrapped
 }
 
-func (c *ProtocolSwitchServerConn) Read(b []byte) (n int, err error) {
-	if c.wrapped == nil {
-		err = c.detect()
-		if err != nil {
-			return 0, err
-		}
+// conn 返回包装后的连接对象，首次使用时推断连接类型
+func (c *ProtocolSwitchServerConn) conn() (net.Conn, error) {
+	if wrapped := c.protected(); wrapped != nil {
+		return wrapped, nil
 	}
-	return c.wrapped.Read(b)
+	if err := c.detect(); err != nil {
+		return nil, err
+	}
+	return c.protected(), nil
+}
+
+func (c *ProtocolSwitchServerConn) Read(b []byte) (n int, err error) {
+	wrapped, err := c.conn()
+	if err != nil {
+		return 0, err
+	}
+	return wrapped.Read(b)
 }
 
 func (c *ProtocolSwitchServerConn) Write(b []byte) (n int, err error) {
-	if c.wrapped == nil {
-		err = c.detect()
-		if err != nil {
-			return 0, err
-		}
+	wrapped, err := c.conn()
+	if err != nil {
+		return 0, err
 	}
-	return c.wrapped.Write(b)
+	return wrapped.Write(b)
 }
